@@ -27,6 +27,7 @@ Table(e) ==
        /\ Chk(SumCount(Cells(e)) = e.N, "every_symbol_accounted_for")
        /\ Chk(e.N < 100000 \/ InBand(k, nel, e.pn, e.D, 49), "event_rate_equals_configured_probability")
        /\ Chk(e.N < 100000 \/ e.pairs < 0 \/ InBand(e.pairs, Mean(e.npairs, e.pn, e.D), e.pn, e.D, 150), "events_pairwise_independent")
+       /\ Chk(e.N < 100000 \/ e.ipairs < 0 \/ InBand(e.ipairs, Mean(e.inpairs, e.pn, e.D), e.pn, e.D, 150), "events_independent_across_batch_items")
 
 Fading(e) ==
     /\ Chk(e.shape_ok, "output_shape_equals_input_shape")
